@@ -1168,6 +1168,19 @@ func ruleL13(c *Ctx) {
 				if !ok {
 					if reason, frozen := confirmedPanicFree["L13|"+shortName(f)+"|"+srcSliceAt(c, f, sl.Pos())]; frozen {
 						why, ok = "confirmed by reading: "+reason, true
+					} else if idx := c.callIndex(); !idx.taken[f] && len(idx.sites[f]) > 0 && f.Parent() == nil {
+						// the same expression moved into a helper that only the listed function calls
+						all := true
+						for _, ci := range idx.sites[f] {
+							if r, ok := confirmedPanicFree["L13|"+shortName(ci.Parent())+"|"+srcSliceAt(c, f, sl.Pos())]; ok {
+								reason = r
+							} else {
+								all = false
+							}
+						}
+						if all {
+							why, ok = "confirmed by reading (moved into "+f.Name()+"): "+reason, true
+						}
 					}
 				}
 				if ok {
